@@ -11,6 +11,7 @@ CONSTANTS
   AllowRst = TRUE
   AllowTClose = TRUE
   AllowCRst = TRUE
+  Planned = TRUE
   Timeout = 2
   MaxNow = 3
   DrainMode = "raw"
